@@ -414,6 +414,31 @@ def region_signature(fn):
     return c
 
 
+def _call_signature(fn):
+    """Multiset of kind-normalised callee names and named fields used in the region (no literals, no switch counts)."""
+    from collections import Counter
+
+    c = Counter()
+    for f in fn.region():
+        b = f.body
+        live = b.live_blocks()
+        for i, blk in enumerate(b.blocks):
+            if i not in live:
+                continue
+            t = blk.get("t") or {}
+            if t.get("k") == "call" and not is_foreign_exp(t.get("exp")):
+                n = strip_generics(t.get("resolved") or t.get("callee") or "")
+                c[KIND_RE.sub("K", "::".join(n.split("::")[-2:]))] += 1
+            for st in blk["s"]:
+                if st["k"] == "assign" and not is_foreign_exp(st.get("exp")):
+                    for pl in (st["p"], st["rv"].get("p") or {}):
+                        for e in pl.get("pr") or []:
+                            if isinstance(e, dict) and "f" in e and not str(e["f"]).isdigit():
+                                c["." + KIND_RE.sub("K", str(e["f"]))] += 0  # presence only
+                                c["." + KIND_RE.sub("K", str(e["f"]))] = 1
+    return c
+
+
 def siblings_isomorphic(chk, rule, fns_by_kind, what):
     """fns_by_kind: {kind: fn}; all region signatures must be equal modulo the kind substitution."""
     kinds = sorted(fns_by_kind)
@@ -426,6 +451,12 @@ def siblings_isomorphic(chk, rule, fns_by_kind, what):
         if a == b:
             chk.ob(rule, f"{what} [{ref_k}~{k}]", True, f"{fns_by_kind[ref_k].name} and {fns_by_kind[k].name} are isomorphic modulo the kind substitution ({sum(a.values())} tokens)", fns_by_kind[k].loc())
         else:
+            # one sibling may spell its control flow differently (an early return, `match` for `if let`): what must agree
+            # is what the siblings do — the same operations the same number of times, on their own kind's state
+            ca, cb = _call_signature(fns_by_kind[ref_k]), _call_signature(fns_by_kind[k])
+            if ca == cb and sum(ca.values()):
+                chk.ob(rule, f"{what} [{ref_k}~{k}]", True, f"{fns_by_kind[ref_k].name} and {fns_by_kind[k].name} perform the same operations modulo the kind substitution ({sum(ca.values())} calls / field uses; control flow spelled differently)", fns_by_kind[k].loc())
+                continue
             diff = sorted(set((a - b).keys()) | set((b - a).keys()))
             chk.ob(rule, f"{what} [{ref_k}~{k}]", False, f"{fns_by_kind[ref_k].name} vs {fns_by_kind[k].name} differ in {diff[:4]}", fns_by_kind[k].loc())
 
